@@ -48,6 +48,13 @@ def rule_writers(ctx):
         changed = any(l == {'Some'} for l in d)
         unchanged = any(l == {'None'} for l in d)
         if pushed:
+            # the first snapshot ever (no current data set) is not a change of serial: a delta exists only against a current one
+            cur_some = any(('PayloadHistory::current(' in v or v.startswith('var:current')) and set(l) == {'Some'} and not v.startswith('cmp(')
+                           for v, l in p.cond_map().items())
+            ctx.check(cur_some, 'K1', 'update:push<=current-Some', 'a delta is pushed only against an existing current data set',
+                      'push_delta on a path that has not established that a current data set exists: the very first snapshot would '
+                      'already advance the serial / be diffed against something that was never served')
+        if pushed:
             n_ok += 1
             ctx.check(changed and not unchanged, 'K1', 'update:push<=delta-Some', 'a delta is pushed only if the data changed', 'push_delta on a path without a delta')
         if changed:
